@@ -831,6 +831,116 @@ for i in range(N):
     sg = relabel(sg, rng)
     run_pair('sym-%d' % i, g, sg, do_iso=True, do_lcs=False, explicit=(i % 5 == 0), alias=(i % 7 == 0))
 
+# ---- disconnected / edge-coloured / node-coloured symmetric patterns, targets with several disjoint copies --------
+def coloured_component(rng):
+    """a small symmetric component with a symmetric colouring of its edges and/or nodes; returns (graph, |Aut| bound)"""
+    kind = rng.choice(['cycle', 'cycle', 'cycle', 'path', 'star', 'edge', 'node', 'tripod'])
+    G = nx.Graph()
+    if kind == 'cycle':
+        n = rng.choice([3, 4, 4, 4, 5, 6, 6])
+        G = nx.cycle_graph(n)
+        mode = rng.choice(['plain', 'alternating', 'alternating', 'block', 'one', 'nodes-alternating', 'nodes-one'])
+        for i in range(n):
+            u, v = i, (i + 1) % n
+            if mode == 'alternating':
+                G.edges[u, v]['c'] = i % 2
+            elif mode == 'block':
+                G.edges[u, v]['c'] = 0 if i < n // 2 else 1
+            elif mode == 'one':
+                G.edges[u, v]['c'] = 1 if i == 0 else 0
+        if mode == 'nodes-alternating':
+            for i in range(n):
+                G.nodes[i]['c'] = i % 2
+        elif mode == 'nodes-one':
+            G.nodes[0]['c'] = 1
+        kind += '-' + mode
+    elif kind == 'path':
+        n = rng.choice([2, 3, 3, 4])
+        G = nx.path_graph(n)
+        if rng.random() < 0.4:
+            for i in range(n - 1):
+                G.edges[i, i + 1]['c'] = 1 if i in (0, n - 2) else 0     # symmetric: the end bonds differ
+        if rng.random() < 0.3:
+            G.nodes[0]['c'] = G.nodes[n - 1]['c'] = 1
+    elif kind == 'star':
+        G = nx.star_graph(3)
+        if rng.random() < 0.5:
+            G.edges[0, 1]['c'] = 1
+    elif kind == 'tripod':
+        G = spider(3, 1)
+        for leaf in (1, 2, 3):
+            G.nodes[leaf]['c'] = 1
+    elif kind == 'edge':
+        G.add_edge(0, 1)
+    else:
+        G.add_node(0)
+    chk.count('multi_component_' + kind)
+    return G
+
+
+def multi_pattern(rng):
+    """2-3 disjoint copies of one coloured component, sometimes plus a different component; node keys interleaved"""
+    comp = coloured_component(rng)
+    while len(comp) > 5:                                    # keep the whole pattern within 10 nodes
+        comp = coloured_component(rng)
+    copies = 3 if (len(comp) <= 3 and rng.random() < 0.3) else 2
+    parts = [comp.copy() for _ in range(copies)]
+    if rng.random() < 0.35:
+        other = coloured_component(rng)
+        if len(other) + len(comp) * copies <= 10:
+            parts.append(other)
+            chk.count('multi_with_other_component')
+    P = nx.Graph()
+    k = 0
+    for part in parts:
+        m = {n: k + i for i, n in enumerate(part.nodes)}
+        P = nx.union(P, nx.relabel_nodes(part, m))
+        k += len(part)
+    return P, parts
+
+
+def multi_target(P, parts, rng):
+    g = P.copy()
+    base = max(g.nodes) + 1
+    r = rng.random()
+    if r < 0.3:
+        chk.count('multi_target_self')
+    elif r < 0.55:
+        g.add_edge(rng.choice(list(P.nodes)), base, c=rng.choice([0, 2]))       # a pendant atom
+        chk.count('multi_target_pendant')
+    elif r < 0.8:
+        extra = rng.choice(parts)                                                # one more disjoint copy
+        g = nx.union(g, nx.relabel_nodes(extra, {n: base + i for i, n in enumerate(extra.nodes)}))
+        chk.count('multi_target_extra_copy')
+    elif r < 0.9:
+        u, v = rng.sample(list(g.nodes), 2)                                      # join two components
+        if not g.has_edge(u, v):
+            g.add_edge(u, v, c=rng.randrange(2))
+        chk.count('multi_target_joined')
+    else:
+        if g.number_of_edges():
+            g.remove_edge(*rng.choice(list(g.edges)))                            # damaged: often no match
+        chk.count('multi_target_damaged')
+    return g
+
+
+rng = chk.rng('multi')
+N = 2000 if chk.thorough else 140
+_t_multi = time.time()
+_n_lines_multi = len(lines)
+for i in range(N):
+    sg, parts = multi_pattern(rng)
+    g = multi_target(sg, parts, rng)
+    if rng.random() < 0.5:
+        g = relabel(g, rng)
+        sg = relabel(sg, rng)
+    else:
+        # plain / interleaved numbering as a chemist would write it (the keys decide the order of the symmetry analysis)
+        sg = nx.relabel_nodes(sg, dict(zip(list(sg.nodes), rng.sample(range(len(sg)), len(sg)))))
+    run_pair('multi-%d' % i, g, sg, do_iso=True, do_lcs=(len(sg) <= 6 and i % 3 == 0), explicit=(i % 4 != 3), alias=(i % 7 == 0))
+chk.extra['multi_stream_s'] = round(time.time() - _t_multi, 1)
+chk.extra['multi_stream_MB'] = round(sum(len(l) for l in lines[_n_lines_multi:]) / 1e6, 1)
+
 # ---- common-subgraph search on pairs that are not contained in each other -------------
 rng = chk.rng('lcs')
 N = 2500 if chk.thorough else 500
